@@ -138,6 +138,18 @@ def run(ctx):
             exp = [(max(0, a), min(S, b)) for a, b in shifted]
             ctx.check("clip", got == exp, "clip/inside-contig", "clip gave %r expected %r" % (got, exp), dict(case, got=got, expected=exp), nt)
             unchanged(tt, b3, "clip", case)
+            if vrng.random() < 0.15:
+                # the same through a table read (lazily) from a BED file whose coordinates were widened with bnp.replace before clipping
+                pth = ctx.path("c08.bed")
+                with open(pth, "w") as f:
+                    for a, b in ivs:
+                        f.write("chr1\t%d\t%d\n" % (a + sh, b + sh))
+                ft = bnp.open(pth).read()
+                wide = bnp.replace(ft, start=np.asarray(ft.start) - 2 * sh, stop=np.asarray(ft.stop))
+                for route, fn in (("arithmetics", lambda: iv_mod.clip(wide, S)), ("geometry", lambda: Geometry({"chr1": S}).clip(wide))):
+                    cl2 = fn()
+                    got2 = list(zip(np.asarray(cl2.start).tolist(), np.asarray(cl2.stop).tolist()))
+                    ctx.check("clip", got2 == exp, "clip/inside-contig:table-read-from-file-then-widened:%s" % route, "clip of a widened file-backed table gave %r expected %r" % (got2, exp), dict(case, got=got2, expected=exp, route=route), nt)
             # extend_to_size with strands
             strands = case["strands"][:len(ivs)]
             st = table(ivs, strands=strands)
@@ -267,6 +279,81 @@ def run(ctx):
             rng.shuffle(rows)
         if rows:
             ctx.run_case(sorting, {"rows": rows})
+    # ---- chromosome-scale coordinates (no dense arrays: run-length results against interval arithmetic in Python ints) -------------
+    def big(case):
+        r = random.Random(case["seed"])
+        S = r.choice([250_000_000, 2 ** 31 - 1, 2 ** 31 + 5, 3_100_000_000])
+        n = r.randint(1, 14)
+        ivs = []
+        for _ in range(n):
+            a = r.randrange(0, S - 1)
+            b = min(S, a + r.choice([1, 1000, 10 ** 7, 2 * 10 ** 8, S]))
+            ivs.append((a, b))
+        if r.random() < 0.5:
+            ivs += [(0, S)] * r.randint(1, 12)          # deep and long: run length x depth beyond 2**31
+        ivs.sort()
+        t = table(ivs)
+        total = sum(b - a for a, b in ivs)
+        union = sum(b - a for a, b in merge_model(ivs, 0))
+        wit = {"S": S, "ivs": ivs[:20], "seed": case["seed"]}
+        p = get_pileup(t, S)
+        got = int(np.sum(p))
+        ctx.check("pileup", got == total, "get_pileup/total-coverage:chromosome-scale", "sum of the pileup of %d intervals on a contig of %d is %d, the interval lengths add up to %d" % (len(ivs), S, got, total), dict(wit, got=got, expected=total), ("big", case["seed"], "p"))
+        got = int(np.sum(get_boolean_mask(t, S)))
+        ctx.check("mask", got == union, "get_boolean_mask/covered-bases:chromosome-scale", "mask covers %d bases, union of the intervals has %d" % (got, union), dict(wit, got=got, expected=union), ("big", case["seed"], "m"))
+        m = merge_intervals(table(ivs))
+        got = list(zip(np.asarray(m.start).tolist(), np.asarray(m.stop).tolist()))
+        ctx.check("merge", got == merge_model(ivs, 0), "merge_intervals/runs:chromosome-scale", "merge of %r gave %r" % (ivs[:4], got[:4]), dict(wit, got=got[:10]), ("big", case["seed"], "g"))
+        shifted = [(a - 7, b + 7) for a, b in ivs]
+        cl = iv_mod.clip(table(shifted), S)
+        got = list(zip(np.asarray(cl.start).tolist(), np.asarray(cl.stop).tolist()))
+        ctx.check("clip", got == [(max(0, a), min(S, b)) for a, b in shifted], "clip/inside-contig:chromosome-scale", "clip gave %r" % (got[:4],), dict(wit, got=got[:10]), ("big", case["seed"], "c"))
+        B = [(r.randrange(0, S - 1), 0) for _ in range(3)]
+        B = sorted((a, min(S, a + r.choice([1, 10 ** 6, 10 ** 9]))) for a, _ in B)
+        u = unique_intersect(table(ivs), table(B), S)
+        got = list(zip(np.asarray(u.start).tolist(), np.asarray(u.stop).tolist()))
+        exp = [(a, b) for a, b in ivs if any(a < d and c < b for c, d in B)]
+        ctx.check("unique_intersect", sorted(got) == sorted(exp), "unique_intersect/entries-of-a-overlapping-b:chromosome-scale", "unique_intersect gave %d entries, %d overlap b" % (len(got), len(exp)), dict(wit, b=B, got=got[:10]), ("big", case["seed"], "u"))
+    for i in range(ctx.pick(3, 40)):
+        ctx.run_case(big, {"seed": ctx.seed * 7919 + ctx.shard * 101 + i})
+
+    # ---- Jaccard / Forbes over several contigs (each set may have no interval on some contigs, first, middle or last) -----------------
+    def multi(case):
+        r = random.Random(case["seed"])
+        names = ["chr1", "chr2", "chr3", "chr4"][:r.randint(2, 4)]
+        sizes = {n: r.randint(3, 30) for n in names}
+        def draw():
+            rows = []
+            for n in names:
+                if r.random() < 0.6:
+                    pts = sorted(r.sample(range(sizes[n] + 1), min(2 * r.randint(1, 3), sizes[n] + 1) // 2 * 2))
+                    rows += [(n, pts[i], pts[i + 1]) for i in range(0, len(pts), 2)]
+            return rows
+        A, B = draw(), draw()
+        if not A or not B:
+            return
+        mk = lambda rows: Interval([x[0] for x in rows], np.array([x[1] for x in rows], dtype=int), np.array([x[2] for x in rows], dtype=int))
+        dense = {}
+        for tag, rows in (("a", A), ("b", B)):
+            for n in names:
+                dense[tag, n] = np.zeros(sizes[n], dtype=bool)
+            for n, a, b in rows:
+                dense[tag, n][a:b] = True
+        ma = np.concatenate([dense["a", n] for n in names]); mb = np.concatenate([dense["b", n] for n in names])
+        a_ = int((ma & mb).sum()); b_ = int((ma & ~mb).sum()); c_ = int((~ma & mb).sum()); d_ = int((~ma & ~mb).sum())
+        N = a_ + b_ + c_ + d_
+        wit = {"sizes": sizes, "a": A, "b": B, "seed": case["seed"]}
+        nt = (tuple(sizes.items()), tuple(A), tuple(B))
+        if N - d_ > 0:
+            got = jaccard(sizes, mk(A), mk(B))
+            ctx.check("jaccard", abs(got - a_ / (N - d_)) < 1e-12, "jaccard/value:several-contigs", "jaccard over %d contigs = %r, per-base model %r" % (len(names), got, a_ / (N - d_)), dict(wit, got=got, expected=a_ / (N - d_)), nt)
+        if (a_ + b_) * (a_ + c_) > 0:
+            got = forbes(sizes, mk(A), mk(B))
+            exp = a_ * N / ((a_ + b_) * (a_ + c_))
+            ctx.check("forbes", abs(got - exp) < 1e-9, "forbes/value:several-contigs", "forbes over %d contigs = %r, per-base model %r" % (len(names), got, exp), dict(wit, got=got, expected=exp), nt)
+    for i in range(ctx.share(ctx.pick(800, 20000))):
+        ctx.run_case(multi, {"seed": rng.randrange(2 ** 40)})
+
     ctx.floor("judged:pileup", ctx.pick(200, 3000))
     ctx.floor("judged:merge", ctx.pick(200, 3000))
     ctx.floor("judged:count_overlap", ctx.pick(100, 3000))
